@@ -197,3 +197,13 @@ Definition shp_multipolygon (ps : list shp) : res shp :=
 
 (* int(x) on a float: truncation toward zero *)
 Definition py_int (q : Q) : Z := if qltb q 0 then (- Qfloor (- q))%Z else Qfloor q.
+
+(* ================= C13: enumerate, combinations(…, 2), scipy's COO constructor ================= *)
+Definition py_enumerate {A} (l : list A) : list (nat * A) := combine (seq 0 (length l)) l.
+Fixpoint py_combinations2 {A} (l : list A) : list (A * A) :=
+  match l with
+  | [] => []
+  | x :: r => map (pair x) r ++ py_combinations2 r
+  end.
+(* sparse.coo_array((data, (i, j)), shape=(r, c)): entry k is data[k] at row i[k], column j[k] *)
+Record coo := mk_coo { coo_data : list Q; coo_i : list nat; coo_j : list nat; coo_rows : Z; coo_cols : Z }.
